@@ -19,6 +19,7 @@ type PlanC15 struct {
 	Stage     int    `json:"stage"`     // handshake stage at which the scripted peer goes silent
 	Cap       int    `json:"cap"`       // socket send buffer (bytes) / in-process queue size for "peer not reading"
 	PeerMode  int    `json:"peer_mode"` // 0 silent, 1 not reading (buffers fill), 2 slow reader
+	FarMs     int    `json:"far_ms"`    // with Cancel: the cancelled context also carries a deadline this far beyond its cancellation (0 = none)
 }
 
 var c15Ops = []string{"xsend", "xrecv", "accept", "chsend", "process", "estab-client", "estab-server", "finish", "tlsup"}
@@ -32,6 +33,9 @@ func genC15(t *simrt.Tape, tier string) interface{} {
 	p.Stage = t.Draw(4)
 	p.Cap = []int{0, 1, 64, 1000}[t.Draw(4)]
 	p.PeerMode = t.Draw(3)
+	if p.Cancel && t.Draw(2) == 0 {
+		p.FarMs = []int{100, 3000, 6000, 20000, 600000}[t.Draw(5)]
+	}
 	if p.Op == "tlsup" {
 		p.Transport = "tcptls"
 	}
@@ -61,6 +65,11 @@ func measure(w *World, p *PlanC15, what string, op func(ctx context.Context) err
 	start := time.Now()
 	if p.Cancel {
 		ctx, cancel = context.WithCancel(context.Background())
+		if p.FarMs > 0 {
+			var c2 context.CancelFunc
+			ctx, c2 = context.WithTimeout(ctx, end+time.Duration(p.FarMs)*time.Millisecond)
+			defer c2()
+		}
 		go func() {
 			time.Sleep(end)
 			cancel()
